@@ -497,12 +497,19 @@ func (r *Run) checkJWTAccessToken(tok string, g *Grant, c *Cred) {
 		r.violate("C06", "jwt-access-token-not-verifiable", "", "JWT access token does not verify under the configured key with an asymmetric algorithm: %v", err)
 		return
 	}
-	scp := claimStrings(claims, "scp")
-	if s, ok := claims["scope"].(string); ok && len(scp) == 0 {
-		scp = splitNonEmpty(s)
+	// the configured claim(s) carry exactly the granted scopes: "scp" as a list, "scope" as a space-separated string, or both
+	_, hasList := claims["scp"]
+	str, hasStr := claims["scope"].(string)
+	wantList, wantStr := r.W.K.JWTScopeField <= 1 || r.W.K.JWTScopeField == 3, r.W.K.JWTScopeField >= 2
+	if hasList || wantList {
+		if scp := claimStrings(claims, "scp"); !sameSet(scp, g.Scopes) {
+			r.violate("C12", "token-carries-ungranted", "scope", "JWT access token carries scopes %v (claim scp), granted %v", scp, g.Scopes)
+		}
 	}
-	if !sameSet(scp, g.Scopes) {
-		r.violate("C12", "token-carries-ungranted", "scope", "JWT access token carries scopes %v, granted %v", scp, g.Scopes)
+	if hasStr || wantStr {
+		if scp := splitNonEmpty(str); !sameSet(scp, g.Scopes) {
+			r.violate("C12", "token-carries-ungranted", "scope", "JWT access token carries scopes %v (claim scope), granted %v", scp, g.Scopes)
+		}
 	}
 	aud := claimStrings(claims, "aud")
 	for _, a := range aud {
